@@ -10,3 +10,5 @@ import Femio.Props.C06
 import Femio.Props.C09
 import Femio.Props.C15
 import Femio.Props.C17
+import Femio.Props.C11
+import Femio.Props.C14
